@@ -203,7 +203,7 @@ class Report:
         for k in self.known_hits:
             print(f"KNOWN-FINDING: property={self.prop} {k['text']} (key={k['key']})")
         shown = 0
-        for key, msg, replay in self.violations:
+        for key, msg, replay in self.violations[:100]:       # replay files for the first hundred; the count is reported below
             h = hashlib.sha1((key + msg).encode()).hexdigest()[:10]
             path = os.path.join(REPLAYS, f"{self.prop}-{h}.json")
             with open(path, "w") as f:
